@@ -106,10 +106,14 @@ class Summary:
         self.ret_from = {}  # param index -> label of the return value when only that param is shared (0)
         self.mutates = {}  # param index -> description of the in-place mutation
         self.sinks = []  # (node, Lab, description): in-place mutations of shared storage in the body
+        # the same two facts when the argument is a fresh container whose shared parts start k levels down (k = 1, 2):
+        self.mutates_at = {}  # k -> {param index -> description}
+        self.ret_at = {}  # k -> {param index -> label of the return value}
 
     def key(self):
         return (self.ret.key(), tuple(sorted((k, v.key()) for k, v in self.ret_from.items())),
-                tuple(sorted(self.mutates)))
+                tuple(sorted(self.mutates)), tuple(sorted((k, tuple(sorted(v))) for k, v in self.mutates_at.items())),
+                tuple(sorted((k, tuple(sorted((i, l.key()) for i, l in v.items()))) for k, v in self.ret_at.items())))
 
 
 def _callee_name(call):
@@ -352,6 +356,9 @@ class Effects:
                                       for p in params}, record_fields=True)
         self.env[f.qname] = base_env
         s.ret = self._ret_label(f, base_env)
+        if self.is_memoised(f) and not self._returns_immutable(f, base_env):
+            # the cache hands the very same object to every later caller: it is shared storage
+            s.ret = Lab(0, "MEMO %s (return value kept by its cache decorator)" % f.qname)
         s.sinks, _ = self._sinks(f, base_env, params, None)
         offset = 1 if (f.cls is not None and params and params[0] in ("self", "cls")) else 0
         for i, p in enumerate(params):
@@ -365,7 +372,32 @@ class Effects:
             _, mut = self._sinks(f, env, params, p)
             if mut:
                 s.mutates[i - offset] = mut
+            # deeper actuals (labels only grow with the parameter's label, so nothing new can appear when level 0 is clean)
+            for k in (1, 2):
+                if i - offset not in s.mutates and i - offset not in s.ret_from:
+                    break
+                envk = self._fixpoint(f, {q: (Lab(k, "PARAM " + p) if q == p else FRESH) for q in params},
+                                      record_fields=False)
+                rk = self._ret_label(f, envk)
+                if rk.d < INF and "PARAM" in rk.origin:
+                    s.ret_at.setdefault(k, {})[i - offset] = rk
+                if i - offset in s.mutates:
+                    _, mutk = self._sinks(f, envk, params, p)
+                    if mutk:
+                        s.mutates_at.setdefault(k, {})[i - offset] = mutk
         self.summ[f.qname] = s
+
+    @staticmethod
+    def is_memoised(f):
+        for d in f.node.decorator_list:
+            t = U(d.func) if isinstance(d, ast.Call) else U(d)
+            if t.split(".")[-1] in ("lru_cache", "cache", "cached_property", "memoize", "memoized"):
+                return True
+        return False
+
+    def _returns_immutable(self, f, env):
+        rets = [n for n in ast.walk(f.node) if isinstance(n, ast.Return) and n.value is not None and self._owner(n) is f.node]
+        return bool(rets) and all(self._maybe_immutable(f, r.value, env) for r in rets)
 
     def _ret_label(self, f, env):
         out = FRESH
@@ -608,7 +640,11 @@ class Effects:
                     a = self._actual(g, c, i)
                     if a is not None:
                         al = self.L(f, a, env)
-                        if al.d < INF:
+                        if al.d in (1, 2):
+                            rk = s.ret_at.get(al.d, {}).get(i)
+                            if rk is not None:
+                                out = lmin(out, Lab(rk.d, al.origin))
+                        elif al.d < INF:
                             out = lmin(out, Lab(rl.d + al.d, al.origin))
             return out
         if isinstance(fn, ast.Attribute):
@@ -674,9 +710,15 @@ class Effects:
         sinks = []
         mut_param = None
 
-        def hit(node, obj_expr, what):
+        def hit(node, obj_expr, what, level_of=None):
+            """level_of: callee summary lookup {k: description} - the callee mutates what lies k levels below its argument."""
             nonlocal mut_param
             lab = self.L(f, obj_expr, env)
+            if level_of is not None:
+                if lab.d not in level_of:
+                    return
+                what = what % level_of[lab.d]
+                lab = Lab(0, lab.origin)
             if lab.d == 0:
                 if watch_param is not None:
                     if lab.origin == "PARAM " + watch_param:
@@ -723,6 +765,10 @@ class Effects:
                     for i, desc in s.mutates.items():
                         a = self._actual(g, n, i)
                         if a is not None:
-                            hit(n, a, "call `%s` whose callee %s mutates that argument (%s)" % (
-                                U(n)[:70], g.qname, desc))
+                            levels = {0: desc}
+                            for k, d in s.mutates_at.items():
+                                if i in d:
+                                    levels[k] = d[i]
+                            hit(n, a, "call `%s` whose callee %s mutates that argument (%%s)" % (
+                                U(n)[:70].replace("%", "%%"), g.qname), level_of=levels)
         return sinks, mut_param
